@@ -18,6 +18,9 @@ FEATURES = {
     "std": [],
     "alloc": ["--no-default-features", "--features", "alloc"],
     "core": ["--no-default-features"],
+    # release profile: fields / captures under #[cfg(not(debug_assertions))] take part in the auto-trait inference
+    "std-rel": ["--release"],
+    "alloc-rel": ["--no-default-features", "--features", "alloc", "--release"],
 }
 
 
@@ -47,11 +50,12 @@ def _prepare(repo):
     lock = os.path.join(repo, "Cargo.lock")
     if os.path.exists(lock):
         shutil.copyfile(lock, os.path.join(bdir, "Cargo.lock"))
-    fp = os.path.join(TARGET, "debug", ".fingerprint")
-    if os.path.isdir(fp):
-        for e in os.listdir(fp):
-            if e.startswith("futures-concurrency-") or e.startswith("fc-witness-"):
-                shutil.rmtree(os.path.join(fp, e), ignore_errors=True)
+    for prof in ("debug", "release"):
+        fp = os.path.join(TARGET, prof, ".fingerprint")
+        if os.path.isdir(fp):
+            for e in os.listdir(fp):
+                if e.startswith("futures-concurrency-") or e.startswith("fc-witness-"):
+                    shutil.rmtree(os.path.join(fp, e), ignore_errors=True)
     return bdir
 
 
@@ -137,7 +141,7 @@ def check(config, twins, index, repo=None):
 def active(w, config):
     """Is witness `w` compiled in `config`?"""
     if w.get("cfg") and "alloc" in w["cfg"]:
-        return config in ("std", "alloc")
+        return config.split("-")[0] in ("std", "alloc")
     return True
 
 
